@@ -149,23 +149,32 @@ Proof.
   eapply Permutation_trans; [apply perm_skip; apply IH; lia|]. apply perm_swap.
 Qed.
 
+Lemma nth_app_last {A} (l : list A) z d : nth (length l) (l ++ [z]) d = z.
+Proof. induction l as [|a l IH]; simpl; [reflexivity|exact IH]. Qed.
+
+Lemma removeExtraAttempt_snoc l z i :
+  (i <= length l)%nat ->
+  Permutation (nth i (l ++ [z]) zero_attempt :: removeExtraAttempt (l ++ [z]) i) (l ++ [z]).
+Proof.
+  intro H. unfold removeExtraAttempt. rewrite app_length. simpl length.
+  replace (pred (length l + 1)) with (length l) by lia.
+  rewrite nth_app_last.
+  destruct (Nat.eqb i (length l)) eqn:Ei.
+  - apply Nat.eqb_eq in Ei. rewrite Ei. rewrite removelast_last, nth_app_last.
+    apply Permutation_cons_append.
+  - apply Nat.eqb_neq in Ei. assert (Hi : (i < length l)%nat) by lia.
+    rewrite (set_nth_app i z l [z] Hi). rewrite removelast_last.
+    rewrite (app_nth1 l [z] zero_attempt Hi).
+    eapply Permutation_trans; [apply set_nth_perm; exact Hi|]. apply Permutation_cons_append.
+Qed.
+
 Lemma removeExtraAttempt_perm l i :
   (i < length l)%nat -> Permutation (nth i l zero_attempt :: removeExtraAttempt l i) l.
 Proof.
   intro H. destruct l as [|a0 l0]; [simpl in H; lia|].
   destruct (exists_last (l := a0 :: l0)) as [l' [z E]]; [discriminate|].
-  rewrite E in *. clear E a0 l0.
-  unfold removeExtraAttempt. rewrite app_length in *. simpl length in *.
-  replace (pred (length l' + 1)) with (length l') by lia.
-  destruct (Nat.eqb i (length l')) eqn:Ei.
-  - apply Nat.eqb_eq in Ei. subst i. rewrite removelast_last.
-    rewrite app_nth2 by lia. rewrite Nat.sub_diag. simpl.
-    apply Permutation_cons_append.
-  - apply Nat.eqb_neq in Ei. assert (Hi : (i < length l')%nat) by lia.
-    rewrite app_nth2 by lia. rewrite Nat.sub_diag. simpl nth at 2.
-    rewrite set_nth_app by exact Hi. rewrite removelast_last.
-    rewrite app_nth1 by exact Hi.
-    eapply Permutation_trans; [apply set_nth_perm; exact Hi|]. apply Permutation_cons_append.
+  rewrite E in *. apply removeExtraAttempt_snoc.
+  rewrite app_length in H. simpl in H. lia.
 Qed.
 
 Lemma find_token_from_spec tok l j i :
@@ -316,10 +325,10 @@ Proof.
     + left. reflexivity.
   - simpl in M. destruct (find_token tok (e_extra e)) eqn:F.
     + (* an extra attempt finishes *)
-      rewrite M. simpl. split; [reflexivity|]. split; [discriminate|]. intros _.
       apply find_token_spec in F. destruct F as [F1 F2].
       set (fin := nth n (e_extra e) zero_attempt) in *.
-      destruct (negb (e_committed e) && negb (e_primary e =? 0)) eqn:C.
+      destruct (negb (e_committed e) && negb (e_primary e =? 0)) eqn:C;
+        (rewrite M; simpl; split; [reflexivity|]; split; [discriminate|]; intros _).
       * (* the live primary moves into the freed slot *)
         apply andb_true_iff in C. destruct C as [C1 C2]. apply negb_true_iff in C1, C2.
         set (e' := Ent (a_pending fin) true 0 (set_nth n (Att (e_primary e) (e_pending e)) (e_extra e))).
@@ -406,20 +415,21 @@ Proof.
       + apply N.eqb_eq in P1. rewrite (W2 eq_refl P1). simpl. discriminate.
       + intros _. right. apply N.eqb_neq. exact P1. }
   unfold cancelAttempt. destruct (e_primary e =? tok) eqn:P.
-  - apply N.eqb_eq in P. rewrite M. split; [simpl; destruct (e_extra e); [|destruct (negb (e_committed e))]; reflexivity|].
+  - apply N.eqb_eq in P.
     assert (C0 : e_committed e = false).
     { destruct (e_committed e) eqn:C1; [|reflexivity]. rewrite (wf_committed e W C1) in P. congruence. }
     assert (AL : abs_live e = (tok, p_at (e_pending e)) :: ext_live (e_extra e)).
     { unfold abs_live, prim_live. rewrite P.
       destruct (tok =? 0) eqn:E; [apply N.eqb_eq in E; contradiction|reflexivity]. }
     destruct (e_extra e) as [|a0 l0] eqn:X.
-    + split; [discriminate|]. intros _.
+    + rewrite M. simpl. split; [reflexivity|]. split; [discriminate|]. intros _.
       apply (GEN (Ent (e_pending e) (e_committed e) 0 []) ) with (z := p_at (e_pending e)).
       * unfold abs_committed. simpl. reflexivity.
       * reflexivity.
       * reflexivity.
       * rewrite AL. unfold abs_live, prim_live. simpl. apply Permutation_refl.
-    + rewrite C0. simpl negb. cbv iota. split; [discriminate|]. intros _. rewrite <- X in *.
+    + rewrite C0. cbn [negb]. rewrite M. cbn [orb].
+      split; [reflexivity|]. split; [discriminate|]. intros _. rewrite <- X in *.
       set (lastn := pred (length (e_extra e))).
       assert (HL : (lastn < length (e_extra e))%nat) by (unfold lastn; rewrite X; simpl; lia).
       set (pro := nth lastn (e_extra e) zero_attempt).
@@ -469,4 +479,83 @@ Proof.
   - rewrite A, (wf_committed e W A). simpl. rewrite negb_andb. reflexivity.
   - destruct (e_committed e) eqn:C; [rewrite (wf_committed e W C) in A; congruence|].
     apply N.eqb_neq in A. rewrite A. simpl. rewrite negb_andb. reflexivity.
+Qed.
+
+(* ---- every delivery record kept in a row carries the row's identity ---------------- *)
+Definition entry_pendings (e : entry) : list pending := e_pending e :: map a_pending (e_extra e).
+Definition entry_keyed (k : key) (e : entry) : Prop := forall p, In p (entry_pendings e) -> key_of p = k.
+
+Lemma removelast_incl {A} (l : list A) x : In x (removelast l) -> In x l.
+Proof.
+  induction l as [|a l IH]; simpl; [intros []|].
+  destruct l as [|b l]; [intros []|]. intros [H|H]; [left; exact H|right; apply IH; exact H].
+Qed.
+
+Lemma set_nth_incl {A} i (x : A) l y : In y (set_nth i x l) -> y = x \/ In y l.
+Proof.
+  revert i. induction l as [|a l IH]; intros i H; [destruct i; destruct H|].
+  destruct i; simpl in H.
+  - destruct H as [H|H]; [left; symmetry; exact H|right; right; exact H].
+  - destruct H as [H|H]; [right; left; exact H|]. apply IH in H. destruct H as [H|H]; [left; exact H|right; right; exact H].
+Qed.
+
+Lemma removeExtraAttempt_incl l i a : In a (removeExtraAttempt l i) -> In a l.
+Proof.
+  unfold removeExtraAttempt. intro H. apply removelast_incl in H.
+  destruct l as [|a0 l0].
+  - destruct (Nat.eqb i (pred (length (@nil attempt)))); [exact H|]. destruct i; simpl in H; exact H.
+  - destruct (Nat.eqb i (pred (length (a0 :: l0)))); [exact H|].
+    apply set_nth_incl in H. destruct H as [H|H]; [|exact H].
+    subst a. apply nth_In. simpl. lia.
+Qed.
+
+Lemma addAttempt_keyed k e p tok :
+  key_of p = k -> entry_wf e -> (entry_keyed k e \/ e = zero_entry) -> entry_keyed k (addAttempt e p tok).
+Proof.
+  intros Hk W He. unfold addAttempt.
+  destruct (negb (e_committed e) && (e_primary e =? 0)) eqn:C.
+  - apply andb_true_iff in C. destruct C as [C1 C2]. apply negb_true_iff in C1. apply N.eqb_eq in C2.
+    rewrite (wf_noprimary e W C1 C2). intros q [H|[]]. subst q. exact Hk.
+  - destruct He as [He|He]; [|subst e; simpl in C; discriminate].
+    intros q H. unfold entry_pendings in H. simpl in H. rewrite map_app in H. simpl in H.
+    destruct H as [H|H]; [apply He; left; exact H|].
+    apply in_app_or in H. destruct H as [H|[H|[]]]; [apply He; right; exact H|subst q; exact Hk].
+Qed.
+
+Lemma finishAttempt_keyed k e tok :
+  entry_keyed k e -> entry_keyed k (fst (finishAttempt e tok)).
+Proof.
+  intros He. unfold finishAttempt. destruct (e_primary e =? tok).
+  - simpl. exact He.
+  - destruct (find_token tok (e_extra e)) eqn:F; [|simpl; exact He].
+    apply find_token_spec in F. destruct F as [F1 _].
+    assert (HF : key_of (a_pending (nth n (e_extra e) zero_attempt)) = k).
+    { apply He. right. apply in_map. apply nth_In. exact F1. }
+    destruct (negb (e_committed e) && negb (e_primary e =? 0)); simpl; intros q [H|H].
+    + subst q. exact HF.
+    + apply in_map_iff in H. destruct H as [a [H1 H2]]. apply set_nth_incl in H2. destruct H2 as [H2|H2].
+      * subst a q. simpl. apply He. left. reflexivity.
+      * subst q. apply He. right. apply in_map. exact H2.
+    + subst q. exact HF.
+    + apply in_map_iff in H. destruct H as [a [H1 H2]]. apply removeExtraAttempt_incl in H2.
+      subst q. apply He. right. apply in_map. exact H2.
+Qed.
+
+Lemma cancelAttempt_keyed k e tok :
+  entry_keyed k e -> entry_keyed k (fst (cancelAttempt e tok)).
+Proof.
+  intros He. unfold cancelAttempt. destruct (e_primary e =? tok).
+  - destruct (e_extra e) as [|a0 l0] eqn:X.
+    + simpl. intros q H. apply He. unfold entry_pendings. rewrite X. exact H.
+    + destruct (negb (e_committed e)); cbn [fst].
+      * rewrite <- X. intros q H. unfold entry_pendings in H. cbn [e_pending e_extra In] in H.
+        destruct H as [H|H].
+        -- subst q. apply He. right. apply in_map. apply nth_In. rewrite X. simpl. lia.
+        -- apply in_map_iff in H. destruct H as [a [H1 H2]]. apply removeExtraAttempt_incl in H2.
+           subst q. apply He. right. apply in_map. exact H2.
+      * intros q H. apply He. unfold entry_pendings. rewrite X. exact H.
+  - destruct (find_token tok (e_extra e)); simpl; [|exact He].
+    intros q [H|H]; [apply He; left; exact H|].
+    apply in_map_iff in H. destruct H as [a [H1 H2]]. apply removeExtraAttempt_incl in H2.
+    subst q. apply He. right. apply in_map. exact H2.
 Qed.
